@@ -20,6 +20,13 @@ pub use serde_json::{json, Value};
 
 use std::collections::{BTreeMap, HashSet};
 
+/// Root of the repository under test: `/repo`, or the scratch worktree when run through
+/// `tools/scratch.sh` (env `VERIF_REPO`). Use it for anything read from the repo at run time
+/// (corpus fonts, golden files): `vcore::repo_dir().join("crates/tfm/corpus")`.
+pub fn repo_dir() -> std::path::PathBuf {
+    std::path::PathBuf::from(std::env::var("VERIF_REPO").unwrap_or_else(|_| "/repo".to_string()))
+}
+
 #[derive(Clone, Copy, Debug, PartialEq, Eq)]
 pub enum Tier {
     Quick,
